@@ -83,7 +83,15 @@ qname = z3.Function("qname", View, StrS)  # quantity name (meaningful iff has_qn
 has_qname = z3.Function("has_qname", View, z3.BoolSort())
 has_quantity = z3.Function("has_quantity", View, z3.BoolSort())  # object has attribute `quantity` (not None)
 vplus = z3.Function("vplus", View, View, View)
-vzero = z3.Function("vzero", View, View)
+zk = z3.Function("zk", View, Shape)  # everything zero() depends on: structure and quantity names of the subtree
+zfun = z3.Function("zfun", Shape, View)
+
+
+def vzero(v):
+    """L-zero: the empty aggregator is a function of the structure (and quantity names) only"""
+    return zfun(zk(v))
+
+
 vscale = z3.Function("vscale", View, z3.RealSort(), View)
 vfill = z3.Function("vfill", View, Datum, z3.RealSort(), View)
 fill_raises = z3.Function("fill_raises", View, Datum, z3.RealSort(), z3.BoolSort())
@@ -473,6 +481,9 @@ class ForallFact:
         self.name = name
 
     def inst(self, t):
+        if isinstance(self.k, (list, tuple)):
+            pairs = list(zip(self.k, t))
+            return z3.Implies(z3.substitute(self.guard, *pairs), z3.substitute(self.body, *pairs))
         f = z3.Implies(z3.substitute(self.guard, (self.k, t)), z3.substitute(self.body, (self.k, t)))
         if self.bvar is not None:
             f = z3.Implies(self.bvar, f)
